@@ -163,6 +163,21 @@ func c11line(t *simrt.Tape, tags []string) string {
 		// nesting far beyond any sane depth, in every recursive position
 		depth := []int{50, 999, 1001, 20000, 300000}[t.Choose(5)]
 		open := strings.Repeat("(", depth)
+		if t.Choose(4) == 0 {
+			// a chain of message/rfc822 parts, each with a complete envelope: well-formed at every level
+			d := []int{90, 150, 1100, 1500, 6000}[t.Choose(5)]
+			level := `("MESSAGE" "RFC822" NIL NIL NIL "7BIT" 1 (NIL NIL NIL NIL NIL NIL NIL NIL NIL NIL) `
+			inner := `("TEXT" "PLAIN" NIL NIL NIL "7BIT" 1 1)`
+			if t.Choose(3) == 0 { // alternate with multiparts
+				level = `(("MESSAGE" "RFC822" NIL NIL NIL "7BIT" 1 (NIL NIL NIL NIL NIL NIL NIL NIL NIL NIL) `
+				return "* 1 FETCH (BODYSTRUCTURE " + strings.Repeat(level, d) + inner + strings.Repeat(` 1) "MIXED")`, d) + ")"
+			}
+			tail := strings.Repeat(" 1)", d)
+			if t.Choose(4) == 0 {
+				tail = "" // unterminated
+			}
+			return "* 1 FETCH (" + []string{"BODYSTRUCTURE ", "BODY "}[t.Choose(2)] + strings.Repeat(level, d) + inner + tail + ")"
+		}
 		return []string{"* 1 FETCH (BODYSTRUCTURE " + open, "* 1 FETCH (BODY " + open + `"TEXT" "PLAIN" NIL NIL NIL "7BIT" 1 1` + strings.Repeat(")", depth), "* THREAD " + open + "1" + strings.Repeat(")", depth), "* 1 FETCH (ENVELOPE " + open, `* LIST ` + open, "* NAMESPACE " + open, `* METADATA "INBOX" ` + open, "* STATUS x " + open, "* 1 FETCH (BODYSTRUCTURE " + strings.Repeat(`("MESSAGE" "RFC822" NIL NIL NIL "7BIT" 1 NIL `, depth/8)}[t.Choose(9)]
 	default:
 		return "* OK text"
@@ -272,6 +287,26 @@ func setProblems(ns imap.NumSet, what string) []string {
 	return out
 }
 
+// bodyDepth is the nesting depth of a delivered body structure (multipart children and embedded messages).
+func bodyDepth(bs imap.BodyStructure) int {
+	switch b := bs.(type) {
+	case *imap.BodyStructureMultiPart:
+		max := 0
+		for _, c := range b.Children {
+			if d := bodyDepth(c); d > max {
+				max = d
+			}
+		}
+		return max + 1
+	case *imap.BodyStructureSinglePart:
+		if b.MessageRFC822 != nil && b.MessageRFC822.BodyStructure != nil {
+			return bodyDepth(b.MessageRFC822.BodyStructure) + 1
+		}
+		return 1
+	}
+	return 0
+}
+
 func walkBody(bs imap.BodyStructure) {
 	if bs == nil {
 		return
@@ -311,6 +346,23 @@ func runC11(r *R) {
 			l = c11mutate(t, l)
 		}
 		lines = append(lines, l)
+	}
+	// response codes on the tagged completions (ending 0): COPYUID / APPENDUID with hostile sets
+	var completions []string
+	for _, k := range chosen {
+		sets := []string{"1", "1:3", "5,7", "4294967295", "*", "1:*", "3:*", "*:2", "7,9:*", "0", "$", "1:0", ""}
+		pick := t.Choose(4)
+		if (k == "copy" || k == "move") && pick > 1 {
+			pick = 0
+		}
+		switch pick {
+		case 0:
+			completions = append(completions, " [COPYUID "+c11nums[t.Choose(5)]+" "+sets[t.Choose(len(sets))]+" "+sets[t.Choose(len(sets))]+"] x")
+		case 1:
+			completions = append(completions, " [APPENDUID "+c11nums[t.Choose(len(c11nums))]+" "+sets[t.Choose(len(sets))]+"] x")
+		default:
+			completions = append(completions, " done")
+		}
 	}
 	if t.Choose(12) == 0 {
 		g := make([]byte, 1+t.Choose(200))
@@ -371,8 +423,8 @@ func runC11(r *R) {
 			r.Nontrivial = true
 			switch ending {
 			case 0:
-				for _, tg := range tags {
-					if srv.send(tg+" OK done") != nil {
+				for i, tg := range tags {
+					if srv.send(tg+" OK"+completions[i%len(completions)]) != nil {
 						return
 					}
 				}
@@ -495,6 +547,10 @@ func c11Issue(c *imapclient.Client, kind string) c11pending {
 					pr = append(pr, "UID FETCH result with UID 0 delivered")
 				}
 				walkBody(m.BodyStructure)
+				// the property's own bound: nesting beyond the wire decoder's cap (1000 levels) is never delivered
+				if d := bodyDepth(m.BodyStructure); d > 1000 {
+					pr = append(pr, fmt.Sprintf("a body structure nested %d levels deep was delivered (the decoder's nesting cap is 1000)", d))
+				}
 				if m.Envelope != nil {
 					for _, a := range m.Envelope.From {
 						_ = a.Addr()
